@@ -209,7 +209,11 @@ def predicate_hook(w, st, node, name, recv, args):
     outs = []
     s1 = st.restrict(v.key, allowed=may_true, universe=uni)
     if s1 is not None:
+        if s1 is st:
+            s1 = st.copy()
+        s1.events.append({"kind": "pred", "node": node, "what": fname, "result": True})
         outs.append(Outcome("val", s1, Const(True)))
+    st.events.append({"kind": "pred", "node": node, "what": fname, "result": False})
     outs.append(Outcome("val", st, Const(False)))
     return outs
 
